@@ -359,12 +359,26 @@ def unit_cases():
     return st.tuples(names, st.integers(0, 4095), st.sampled_from(['proc', 'module', 'item'])).map(list)
 
 
+def _explore(ctx, strategy, check, total, chunk=300):
+    """
+    ctx.given in chunks of ``chunk`` cases (quick tier: exactly one chunk, label 'main'): once the time budget is
+    used up Hypothesis still *generates* the remaining examples of a run, which for the thorough case counts takes
+    longer than the runner's hard timeout
+    """
+    k = 0
+    while total > 0 and not ctx.out_of_time():
+        n = min(chunk, total)
+        ctx.given(strategy, check, n, label='main' if k == 0 else f'main{k}')
+        total -= n
+        k += 1
+
+
 def run_shard(ctx):
     harness.quiet()
     ctx.given(unit_cases(), check_unit, ctx.scale(400, 4000), label='unit')
     ctx.exclude('core project profile: triggers of listed C21 findings are not generated '
                 '(see lokiverif/project/gen.py DEFAULT_PROFILE)', 0)
-    ctx.given(cases(), check_case, ctx.scale(2400, 60000), label='main')
+    _explore(ctx, cases(), check_case, ctx.scale(2400, 60000))
 
 
 def replay(case, ctx):
